@@ -218,8 +218,21 @@ func c35RevString(s string) (c35RevClass, error) {
 var c35NotRevisionJSON = []string{`1.5`, `true`, `false`, `{}`, `[1]`, `["1"]`, `{"N":1}`, `-`, `1x`}
 
 type c35RevCase struct {
-	N int64
-	S string
+	N       int64
+	S       string
+	RawJSON string `json:",omitempty"` // a JSON value that is no revision under any reading
+}
+
+// c35RevRawJSON: raw must be refused.
+func c35RevRawJSON(raw string) error {
+	if raw == "" {
+		return nil
+	}
+	var r Revision
+	if err := json.Unmarshal([]byte(raw), &r); err == nil {
+		return verifkit.Violatef("JSON value %s accepted as revision %d", raw, r.N)
+	}
+	return nil
 }
 
 // TestVerifC35RevisionEnum: every integer in [-2000, 2000] through every form, and the
@@ -232,6 +245,9 @@ func TestVerifC35RevisionEnum(t *testing.T) {
 			e.Fail(c, "%v", err)
 		}
 		if _, err := c35RevString(c.S); err != nil {
+			e.Fail(c, "%v", err)
+		}
+		if err := c35RevRawJSON(c.RawJSON); err != nil {
 			e.Fail(c, "%v", err)
 		}
 	}
@@ -265,10 +281,7 @@ func TestVerifC35RevisionEnum(t *testing.T) {
 	}
 	e.Sample(`the string family around every n in [0, 2000]: n, xn, -n, x-n, +n, 0n, x0n, "n ", " n", nx, xxn, Xn, n.0, xnx, and the boundary strings around the largest int`)
 	for _, raw := range c35NotRevisionJSON {
-		var r Revision
-		if err := json.Unmarshal([]byte(raw), &r); err == nil {
-			e.Fail(c35RevCase{S: raw}, "JSON value %s accepted as revision %d", raw, r.N)
-		}
+		run(c35RevCase{N: 1, S: "1", RawJSON: raw})
 		fam++
 	}
 	e.Bulk(n+fam, n+fam, "revision")
@@ -331,7 +344,11 @@ func TestVerifC35Revision(t *testing.T) {
 			default:
 				n = rapid.Int64Range(-c35MaxInt, c35MaxInt).Draw(t, "any")
 			}
-			return c35RevCase{N: n, S: c35GenRevString().Draw(t, "s")}
+			c := c35RevCase{N: n, S: c35GenRevString().Draw(t, "s")}
+			if rapid.IntRange(0, 9).Draw(t, "raw") == 0 {
+				c.RawJSON = rapid.SampledFrom(c35NotRevisionJSON).Draw(t, "rawJSON")
+			}
+			return c
 		},
 		Run: func(c c35RevCase) (verifkit.Outcome, error) {
 			o := verifkit.Outcome{NonTrivial: true}
@@ -350,7 +367,10 @@ func TestVerifC35Revision(t *testing.T) {
 			}
 			class, err := c35RevString(c.S)
 			o.Labels = append(o.Labels, []string{"canonical-string", "invalid-string", "unspecified-string"}[class])
-			return o, err
+			if err != nil {
+				return o, err
+			}
+			return o, c35RevRawJSON(c.RawJSON)
 		},
 		Floors: map[string]float64{"local": 0.3, "beyond-float53": 0.3, "canonical-string": 0.15, "invalid-string": 0.3, "unspecified-string": 0.03},
 	})
